@@ -213,6 +213,53 @@ func ScaffoldBig2(sigma []byte, variant string) Scaffold {
 	}}
 }
 
+// ScaffoldBigPair builds two 257-bit nodes (the root and the node under its first
+// label) whose label sets are equal except inside 64-bit word k of the 257-bit
+// bitmap (k = 0..3): the root carries byte x_k, the second node bytes y_k, y2_k,
+// y3_k of that word; S hangs below y_k.  This separates code that looks at a part of a big
+// node's bitmap from code that looks at all of it.
+func ScaffoldBigPair(k int) Scaffold {
+	name := fmt.Sprintf("bigpair%d", k)
+	// word w of the bitmap covers label indexes 64w..64w+63 = bytes 64w-1..64w+62
+	wordBytes := func(w int, n int, skip int) []byte {
+		var out []byte
+		lo, hi := 64*w, 64*w+62
+		if w == 0 {
+			lo = 1
+		}
+		step := (hi - lo) / (n + skip + 1)
+		if step < 1 {
+			step = 1
+		}
+		for b := lo + skip*step; len(out) < n && b <= hi; b += step {
+			out = append(out, byte(b))
+		}
+		return out
+	}
+	common := wordBytes((k+2)%4, 11, 0)
+	xy := wordBytes(k, 4, 3)
+	x, y := xy[0], xy[1]
+	return Scaffold{name, func(S []string) *Scaffolded {
+		var fixed []string
+		b0 := common[0]
+		for _, c := range common[1:] {
+			fixed = append(fixed, string([]byte{c}))
+		}
+		fixed = append(fixed, string([]byte{x}))
+		for _, c := range common {
+			fixed = append(fixed, string([]byte{b0, c}))
+		}
+		// the second node also carries two more labels of word k, so the two nodes
+		// differ in their number of children as well
+		fixed = append(fixed, string([]byte{b0, xy[2]}), string([]byte{b0, xy[3]}))
+		P := string([]byte{b0, y})
+		if len(S) == 0 {
+			fixed = append(fixed, P)
+		}
+		return mk(name, fixed, S, func(q string) string { return P + q })
+	}}
+}
+
 // labelSetKeys returns the keys of a one-node subtrie under prefix P whose 17-bit
 // node has exactly the given labels (0 = end of key, 1..16 = high nibble+1).
 func labelSetKeys(P string, labels []int) []string {
